@@ -360,6 +360,9 @@ func (w *c19World) xSnapshot() {
 				continue
 			}
 			us = append(us, l.NetBalance.String()+":"+i64(l.CreatedAt.Unix())+":"+w.recvIx(l.Depositor))
+			if w.ctx.BlockTime().Unix()-l.CreatedAt.Unix() < e.MinLockupTimeSeconds {
+				tr.Count("xshare:locker-younger-than-lockup")
+			}
 		}
 		total := "0"
 		if !lk.DepositedAmount.IsNil() {
@@ -376,6 +379,9 @@ func (w *c19World) xSnapshot() {
 				continue
 			}
 			us = append(us, v.AmountOut.String()+":"+i64(v.CreatedAt.Unix())+":"+w.recvIx(v.Owner))
+			if w.ctx.BlockTime().Unix()-v.CreatedAt.Unix() < e.MinLockupTimeSeconds {
+				tr.Count("xshare:vault-younger-than-lockup")
+			}
 		}
 		total := "0"
 		if !md.TokenMintedAmount.IsNil() {
@@ -639,6 +645,14 @@ func c19XWorld(t *testing.T, tr *Trace, rng *Rng) {
 			if s.denom == "weth" || rng.Chance(70) {
 				s.denom = []string{"urew", "urew", "urewb"}[rng.Intn(3)]
 			}
+			if rng.Chance(4) {
+				s.asset = 4 // an asset the lend pool does not list: no AssetStats ⇒ the function returns, later programmes are not visited
+				tr.Count("xprog:lend-asset-without-stats")
+			}
+			if rng.Chance(5) {
+				s.denom = "ucasset1" // an asset without any price record: the programme is skipped every block
+				tr.Count("xprog:lend-reward-without-price")
+			}
 		}
 		// malformed stream
 		switch rng.Intn(30) {
@@ -707,7 +721,7 @@ func c19XWorld(t *testing.T, tr *Trace, rng *Rng) {
 			tr.Count("xgap:normal")
 		}
 		w.block(g)
-		switch rng.Intn(14) {
+		switch rng.Intn(13) {
 		case 0:
 			if len(late) > 0 {
 				newProg(late[0])
@@ -776,12 +790,19 @@ func c19XWorld(t *testing.T, tr *Trace, rng *Rng) {
 				w.setPrice(uint64(rng.Range(1, 3)), 1000000, false) // inactive but non-zero: still used
 				tr.Count("xop:price-inactive-nonzero")
 			}
-		case 9: // kill switch of one of the apps for one block
+		case 9: // kill switch / emergency shutdown status of one of the apps for one block
 			app := []uint64{1, w.x.vaultApp, w.x.lendApp}[rng.Intn(3)]
-			w.must(w.app.EsmKeeper.SetKillSwitchData(w.ctx, esmtypes.KillSwitchParams{AppId: app, BreakerEnable: true}))
-			tr.Count("xop:kill-switch")
-			w.block(gaps[rng.Intn(len(gaps))])
-			w.must(w.app.EsmKeeper.SetKillSwitchData(w.ctx, esmtypes.KillSwitchParams{AppId: app, BreakerEnable: false}))
+			if rng.Chance(50) {
+				w.must(w.app.EsmKeeper.SetKillSwitchData(w.ctx, esmtypes.KillSwitchParams{AppId: app, BreakerEnable: true}))
+				tr.Count("xop:kill-switch")
+				w.block(gaps[rng.Intn(len(gaps))])
+				w.must(w.app.EsmKeeper.SetKillSwitchData(w.ctx, esmtypes.KillSwitchParams{AppId: app, BreakerEnable: false}))
+			} else {
+				w.app.EsmKeeper.SetESMStatus(w.ctx, esmtypes.ESMStatus{AppId: app, Status: true})
+				tr.Count("xop:esm-status")
+				w.block(gaps[rng.Intn(len(gaps))])
+				w.app.EsmKeeper.SetESMStatus(w.ctx, esmtypes.ESMStatus{AppId: app, Status: false})
+			}
 		case 10:
 			w.donate(w.acct(70), []string{"urew", "urewb", "weth"}[rng.Intn(3)], int64(rng.Range(1, 1000)))
 		case 11: // the reward token's price
